@@ -51,11 +51,11 @@ template <typename C> static std::string text_of(C const& c)
 
 // integrand shapes
 // s_gap (not part of the shape loops): ordinary, except that the second iteration of the run yields zeros only
-enum shape { s_ordinary = 0, s_zero, s_const, s_zero_mean, s_nonfinite, s_negative, s_count, s_gap = s_count };
+enum shape { s_ordinary = 0, s_zero, s_const, s_zero_mean, s_nonfinite, s_negative, s_count, s_gap = s_count, s_gap0 };
 static thread_local int iter_no = 0; // callbacks seen by this rank in the current run
 static char const* shape_name(int s)
 {
-    static char const* n[] = {"ordinary", "zero", "const", "zero_mean", "nonfinite", "negative", "gap"};
+    static char const* n[] = {"ordinary", "zero", "const", "zero_mean", "nonfinite", "negative", "gap", "gap0"};
     return n[s];
 }
 template <typename T> static T shape_value(int s, T x)
@@ -64,6 +64,7 @@ template <typename T> static T shape_value(int s, T x)
     {
     case s_zero: return T();
     case s_gap: return iter_no == 1 ? T() : x * x + T(0.1);
+    case s_gap0: return iter_no == 0 ? T() : x * x + T(0.1);   // the first iteration yields zeros only
     case s_const: return T(2);
     case s_zero_mean: return x < T(0.5) ? T(1) : T(-1);
     case s_nonfinite: return std::numeric_limits<T>::quiet_NaN();
@@ -324,6 +325,9 @@ template <typename T> static void c12_family(rng& g, bool thorough)
     {
         c12_run<plain_k<T>, T>(g, s_gap, 0, world == 1 ? 0 : world, true, 0.04, 0, false, (int) g.below(4));
         if (world != 1) c12_run<mc_k<T>, T>(g, s_gap, 1, world, true, 0.04, 0, false, 0);
+        // (first iteration empty: the target 0.04 is reached at the third callback as well)
+        c12_run<plain_k<T>, T>(g, s_gap0, 0, world == 1 ? 0 : world, true, 0.04, 0, false, (int) g.below(4));
+        if (world == 2) c12_run<vegas_k<T>, T>(g, s_gap0, 0, world, true, 0.04, 0, false, 0);
     }
     // resumed from a checkpoint whose two results (200 calls each, relative error about 0.05 each) count: together with the first new
     // iteration the combination is at about 0.03 - a target of 0.04 is reached at the first callback after the resumption
